@@ -10,15 +10,17 @@ theorem dimOverlap_trans_some {x y : Option Nat} {r : Nat} (hx : dimOverlap x (s
 
 /-- two table rows that cover the same location in different iterations, one of them an uncritical write, conflict -/
 theorem conflicts_of_covers (r : Region) (s : Nat → Nat) {a b : Access} {i j : Nat} {l : Loc}
-    (hw : a.kind.isWrite = true) (hca : a.critical = false) (hij : i ≠ j)
+    (hw : a.kind.isWrite = true) (hca : a.critical = false) (hfa : a.foreign = false) (hij : i ≠ j)
     (hi : r.lo s ≤ i ∧ i < r.hi s) (hj : r.lo s ≤ j ∧ j < r.hi s)
     (ha : a.covers s i l) (hb : b.covers s j l) : a.ConflictsWith r.lo r.hi b := by
   obtain ⟨harr, va, hga, hra, hcola⟩ := ha
   obtain ⟨hbrr, vb, hgb, hrb, hcolb⟩ := hb
-  refine ⟨hw, harr.trans hbrr.symm, ?_, s, i, j, va, vb, hij, hi.1, hi.2, hj.1, hj.2, hga, hgb,
+  refine ⟨hw, harr.trans hbrr.symm, ?_, ?_, s, i, j, va, vb, hij, hi.1, hi.2, hj.1, hj.2, hga, hgb,
     dimOverlap_trans_some hra hrb, dimOverlap_trans_some hcola hcolb⟩
-  intro ⟨h, _⟩
-  rw [hca] at h; cases h
+  · intro ⟨h, _⟩
+    rw [hca] at h; cases h
+  · intro ⟨h, _⟩
+    rw [hfa] at h; cases h
 
 /-- **Table ⇒ model.**  A loop conforming to a race-free region table is race free. -/
 theorem raceFree_of_conforms (r : Region) (hr : r.RaceFree) (p : ParLoop V E) (s : Nat → Nat)
@@ -27,15 +29,15 @@ theorem raceFree_of_conforms (r : Region) (hr : r.RaceFree) (p : ParLoop V E) (s
   have hval : r.lo s + i.val ≠ r.lo s + j.val := fun e => hij (Fin.ext (by omega))
   have hbi : r.lo s ≤ r.lo s + i.val ∧ r.lo s + i.val < r.hi s := ⟨by omega, by have := hc.size; have := i.isLt; omega⟩
   have hbj : r.lo s ≤ r.lo s + j.val ∧ r.lo s + j.val < r.hi s := ⟨by omega, by have := hc.size; have := j.isLt; omega⟩
-  obtain ⟨a, ha, haw, hac, hacov⟩ := hc.writes i l hw
+  obtain ⟨a, ha, haw, hac, haf, hacov⟩ := hc.writes i l hw
   constructor
   · intro hwj
-    obtain ⟨b, hb, _, _, hbcov⟩ := hc.writes j l hwj
-    exact hr a ha b hb (conflicts_of_covers r s haw hac hval hbi hbj hacov hbcov)
+    obtain ⟨b, hb, _, _, _, hbcov⟩ := hc.writes j l hwj
+    exact hr a ha b hb (conflicts_of_covers r s haw hac haf hval hbi hbj hacov hbcov)
   · intro hrj
-    rcases hc.reads j l hrj ⟨i, hw⟩ with ⟨b, hb, _, _, hbcov⟩ | ⟨b, hb, _, _, hbcov⟩
-    · exact hr a ha b hb (conflicts_of_covers r s haw hac hval hbi hbj hacov hbcov)
-    · exact hr a ha b hb (conflicts_of_covers r s haw hac hval hbi hbj hacov hbcov)
+    rcases hc.reads j l hrj ⟨i, hw⟩ with ⟨b, hb, _, _, _, hbcov⟩ | ⟨b, hb, _, _, _, hbcov⟩
+    · exact hr a ha b hb (conflicts_of_covers r s haw hac haf hval hbi hbj hacov hbcov)
+    · exact hr a ha b hb (conflicts_of_covers r s haw hac haf hval hbi hbj hacov hbcov)
 
 /-! ### effect lists -/
 
